@@ -335,7 +335,13 @@ fn handle_established(
                     };
                 }
             }
-            tcb.snd_wnd = s.window;
+            // Take the window only from a segment that is not older
+            // than what we already processed: an ACK that was overtaken
+            // on the wire (its ack lies behind snd_una) describes a
+            // window the peer has since closed.
+            if (s.ack.wrapping_sub(tcb.snd_una) as i32) >= 0 {
+                tcb.snd_wnd = s.window;
+            }
             wake_write = true;
         }
 
